@@ -40,11 +40,11 @@ Definition assignable (give : ty) (slot : ty) : bool :=
 Definition fields_of (st : ty) : list finfo :=
   match assoc st struct_table with Some l => l | None => [] end.
 
-(* pgo.Dots is serialised as Ptr *pgo.Dots (Struct pgo.Dots [Atom pgo.DotsPos id]):
+(* pgo.Dots is serialised as Ptr *pgo.Dots (Struct pgo.Dots [Nil ast.Expr; Atom pgo.DotsPos id]):
    the token.Pos of a dots is its identity in the engine (data key, association) *)
 Definition is_dots (p : val) : option N :=
   match p with
-  | Ptr t (Struct _ [Atom _ id]) => if N.eqb t T_P_pgo_Dots then Some id else None
+  | Ptr t (Struct _ [_; Atom _ id]) => if N.eqb t T_P_pgo_Dots then Some id else None
   | _ => None
   end.
 
